@@ -214,17 +214,24 @@ class RSAKey(PKey):
             except (ValueError, TypeError, UnsupportedAlgorithm) as e:
                 raise SSHException(str(e))
         elif pkformat == self._PRIVATE_KEY_FORMAT_OPENSSH:
-            n, e, d, iqmp, p, q = self._uint32_cstruct_unpack(data, "iiiiii")
-            public_numbers = rsa.RSAPublicNumbers(e=e, n=n)
-            key = rsa.RSAPrivateNumbers(
-                p=p,
-                q=q,
-                d=d,
-                dmp1=d % (p - 1),
-                dmq1=d % (q - 1),
-                iqmp=iqmp,
-                public_numbers=public_numbers,
-            ).private_key(default_backend())
+            try:
+                n, e, d, iqmp, p, q = self._uint32_cstruct_unpack(
+                    data, "iiiiii"
+                )
+                public_numbers = rsa.RSAPublicNumbers(e=e, n=n)
+                key = rsa.RSAPrivateNumbers(
+                    p=p,
+                    q=q,
+                    d=d,
+                    dmp1=d % (p - 1),
+                    dmq1=d % (q - 1),
+                    iqmp=iqmp,
+                    public_numbers=public_numbers,
+                ).private_key(default_backend())
+            except Exception as exc:
+                # as in ECDSAKey: the numbers of a damaged (or non-RSA) blob
+                # can fail in any number of ways
+                raise SSHException(str(exc))
         else:
             self._got_bad_key_format_id(pkformat)
         assert isinstance(key, rsa.RSAPrivateKey)
